@@ -10,9 +10,11 @@ def warn_always(message: str, stacklevel: int = 2) -> None:
     """Issue a UserWarning that Python's once-per-location rule cannot swallow.
 
     The warning is attributed to the frame `stacklevel` levels up (like
-    warnings.warn) but uses a throw-away registry, so a second model solved from
-    the same line of a loop or helper function is announced as well. Filters set
-    by the user ("ignore", "error", ...) are still honoured.
+    warnings.warn) but is not entered in that location's registry, so a second
+    model solved from the same line of a loop or helper function is announced as
+    well. Filters set by the user ("ignore", "error", "once", ...) are still
+    honoured. The caller's namespace is not inspected (no module_globals): it may
+    be a REPL, a notebook cell or `python -c` code without an import spec.
     """
     try:
         frame = sys._getframe(stacklevel)
@@ -24,6 +26,4 @@ def warn_always(message: str, stacklevel: int = 2) -> None:
         filename=frame.f_code.co_filename,
         lineno=frame.f_lineno,
         module=frame.f_globals.get("__name__", "<unknown>"),
-        registry={},
-        module_globals=frame.f_globals,
     )
